@@ -34,6 +34,7 @@ type Config struct {
 	SampleEvery int // ask for a model of every k-th OK path (native cross-validation)
 	SolverLog   string
 	StopOnFirst bool // stop exploring after the first candidate counterexample
+	KeepObs     bool // keep the observations of every completed path (2-safety comparisons across paths)
 	RunCmdInits bool // interpret the init#k functions of package cmd (cobra/pflag registration)
 }
 
@@ -323,7 +324,7 @@ func Explore(cfg *Config, h *ssa.Function) (*ExploreResult, error) {
 				if wantModel {
 					pr.Model, pr.ModelRes = w.lastPS.model()
 					fillVals(pr)
-				} else if pr.Weight != "" {
+				} else if pr.Weight != "" || cfg.KeepObs {
 					fillVals(pr) // the choices (constants) are needed to re-run the configuration natively
 				}
 
@@ -352,6 +353,8 @@ func Explore(cfg *Config, h *ssa.Function) (*ExploreResult, error) {
 				switch pr.Status {
 				case StOK:
 					if pr.Weight != "" {
+						res.Weighted = append(res.Weighted, pr)
+					} else if cfg.KeepObs {
 						res.Weighted = append(res.Weighted, pr)
 					}
 					if pr.Model != nil && len(res.Samples) < 64 {
